@@ -353,6 +353,138 @@ End SrcSh.
 """
 
 
+# ---------------------------------------------------------------------------------- parse_int_list
+# Exceptions: the translated loop carries `err` (None or the first exception raised); every statement that can
+# raise is a shape that does nothing once err is set; the result is the pair (err, sorted(output)).
+def normalise_parse(node):
+    loops = [s for s in node.body if isinstance(s, ast.For)]
+    if len(loops) != 1 or loops[0].orelse:
+        raise U("expected exactly one for loop without else")
+    loop = loops[0]
+    if any(isinstance(n, (ast.Break, ast.While, ast.Try, ast.With, ast.Raise, ast.Yield)) for n in ast.walk(node)):
+        raise U("unexpected control flow in parse_int_list")
+    if any(isinstance(n, (ast.For,)) for s in loop.body for n in ast.walk(s)):
+        raise U("nested loop")
+    if not _tail_continue_only(loop.body):
+        raise U("continue in non-tail position")
+    # for x in range_string.strip().split(delim):   ->   for x in __parts   (the wrapper performs strip/split)
+    it = loop.iter
+    ok = (_method_call(it, "split", 1) and _is_name(it.args[0], "delim") and _method_call(it.func.value, "strip", 0)
+          and _is_name(it.func.value.func.value, "range_string"))
+    if not ok:
+        raise U("loop source is not range_string.strip().split(delim)")
+    loop.iter = ast.Name(id="parts", ctx=ast.Load())
+
+    class R(ast.NodeTransformer):
+        def visit_Compare(self, c):
+            if (len(c.ops) == 1 and isinstance(c.ops[0], ast.In) and _is_name(c.left, "range_delim")
+                    and _is_name(c.comparators[0])):
+                return ast.Call(func=ast.Name(id="__contains", ctx=ast.Load()), args=[c.left, c.comparators[0]], keywords=[])
+            raise U("comparison of an unknown shape in parse_int_list")
+    for i, s in enumerate(loop.body):
+        loop.body[i] = R().visit(s)
+    last = node.body[-1]
+    if not (isinstance(last, ast.Return) and isinstance(last.value, ast.Call) and _is_name(last.value.func, "sorted")
+            and len(last.value.args) == 1 and _is_name(last.value.args[0], "output") and not last.value.keywords) \
+            or sum(isinstance(n, ast.Return) for n in ast.walk(node)) != 1:
+        raise U("parse_int_list must end in  return sorted(output)")
+    node.body[-1] = ast.Return(value=ast.Tuple(elts=[ast.Name(id="err", ctx=ast.Load()), last.value], ctx=ast.Load()))
+    # the parameters of the translated function: the pieces instead of the string and its delimiter
+    for a in node.args.args:
+        if a.arg == "range_string":
+            a.arg = "parts"
+    ast.fix_missing_locations(node)
+    return node
+
+
+def shape_limits(T, s, probe, scope=None):
+    """range_limits = list(map(int, x.split(range_delim)))      (may raise: split / int)"""
+    if not (isinstance(s, ast.Assign) and len(s.targets) == 1 and _is_name(s.targets[0], "range_limits")):
+        return None
+    v = s.value
+    ok = (isinstance(v, ast.Call) and _is_name(v.func, "list") and len(v.args) == 1 and isinstance(v.args[0], ast.Call)
+          and _is_name(v.args[0].func, "map") and len(v.args[0].args) == 2 and _is_name(v.args[0].args[0], "int")
+          and _method_call(v.args[0].args[1], "split", 1) and _is_name(v.args[0].args[1].func.value, "x")
+          and _is_name(v.args[0].args[1].args[0], "range_delim"))
+    if not ok:
+        raise U("range_limits of an unknown shape")
+    if probe:
+        return ["err", "range_limits"]
+    return ("let '(err, range_limits) :=\n"
+            "      match err with\n"
+            "      | Some _ => (err, range_limits)\n"
+            "      | None => match py_split range_delim x with\n"
+            "                | Raise e => (Some e, range_limits)\n"
+            "                | Ok ws => match map_res py_int ws with\n"
+            "                           | Raise e => (Some e, range_limits)\n"
+            "                           | Ok l => (None, l)\n"
+            "                           end\n"
+            "                end\n"
+            "      end in\n")
+
+
+def shape_append_int(T, s, probe, scope=None):
+    """output.append(int(x))      (may raise)"""
+    if not (isinstance(s, ast.Expr) and _method_call(s.value, "append", 1) and _is_name(s.value.func.value, "output")):
+        return None
+    a = s.value.args[0]
+    if not (isinstance(a, ast.Call) and _is_name(a.func, "int") and len(a.args) == 1 and _is_name(a.args[0], "x") and not a.keywords):
+        raise U("output.append of an unknown shape")
+    if probe:
+        return ["err", "output"]
+    return ("let '(err, output) :=\n"
+            "      match err with\n"
+            "      | Some _ => (err, output)\n"
+            "      | None => match py_int x with Raise e => (Some e, output) | Ok v => (None, output ++ [v]) end\n"
+            "      end in\n")
+
+
+def shape_output_extend(T, s, probe, scope=None):
+    """output += list(range(a, b))   - evaluated only when no exception is pending"""
+    if not (isinstance(s, ast.AugAssign) and _is_name(s.target, "output") and isinstance(s.op, ast.Add)):
+        return None
+    v = s.value
+    if not (isinstance(v, ast.Call) and _is_name(v.func, "list") and len(v.args) == 1 and isinstance(v.args[0], ast.Call)
+            and _is_name(v.args[0].func, "range") and len(v.args[0].args) == 2 and not v.args[0].keywords):
+        raise U("output += of an unknown shape")
+    if probe:
+        return ["output"]
+    lo, hi = v.args[0].args
+    return ("let output := match err with Some _ => output | None => output ++ zrange %s %s end in\n"
+            % (T.expr(lo, scope), T.expr(hi, scope)))
+
+
+CFG_PARSE = {
+    "name": "src_parse_parts",
+    "params": [("parts", "list text"), ("delim", "text"), ("range_delim", "text")],
+    "defaults": {"delim": "','", "range_delim": "'-'"},
+    "ret": "(option exn * list Z)", "num": "Z",
+    "kinds": {"parts": "list", "delim": "text", "range_delim": "text", "output": "listZ", "x": "text",
+              "range_limits": "listZ", "err": "err"},
+    "calls": {"__contains": ("contains", "bool"), "min": ("list_minZ", "int"), "max": ("list_maxZ", "int"),
+              "sorted": ("sortZ", "listZ")},
+    "truthy": {"text": "src_nonempty"},
+    "prebind": {"err": "(None : option exn)", "range_limits": "([] : list Z)"},
+    "shapes": [shape_limits, shape_append_int, shape_output_extend, shape_continue],
+}
+
+HEADER_PARSE = """
+(* ---- parse_int_list: the loop over the pieces of range_string.strip().split(delim); err = the first
+   exception raised (None: none), the function returns sorted(output) when err is None ---- *)
+Open Scope Z_scope.
+"""
+
+FOOTER_PARSE = """Definition src_parse_int_list (range_string delim range_delim : text) : res (list Z) :=
+  match py_split delim (strip_by py_isspace range_string) with
+  | Raise e => Raise e
+  | Ok parts => match src_parse_parts parts delim range_delim with
+                | (Some e, _) => Raise e
+                | (None, l) => Ok l
+                end
+  end.
+"""
+
+
 CFG = {
     "name": "src_format_int_list",
     "params": [("int_list", "list Z"), ("delim", "text"), ("range_delim", "text"), ("delim_space", "bool")],
@@ -388,7 +520,9 @@ def generate(repo):
     sh, sep = normalise_sh(py2coq.get_function(path, "args2sh"))
     return {"C14_Src": HEADER % path + py2coq.Translator(dict(CFG)).function(node)
             + HEADER_CMD + py2coq.Translator(dict(CFG_CMD)).function(cmd) + FOOTER_CMD
-            + HEADER_SH % repr(sep) + py2coq.Translator(dict(CFG_SH)).function(sh) + FOOTER_SH % _codes(sep)}
+            + HEADER_SH % repr(sep) + py2coq.Translator(dict(CFG_SH)).function(sh) + FOOTER_SH % _codes(sep)
+            + HEADER_PARSE + py2coq.Translator(dict(CFG_PARSE)).function(
+                normalise_parse(py2coq.get_function(path, "parse_int_list"))) + FOOTER_PARSE}
 
 
 if __name__ == "__main__":
